@@ -700,4 +700,38 @@ def no_shared_parts(repo: Repo) -> RuleRun:
 
 no_shared_parts.rule_id = "C09.NO-SHARED-PARTS"
 
-RULES = [purity, no_alias_store, affine_balance, unit_normal, direction_parts, transform_equals_methods, transform_routing, linear_parts, deep_copy, mirror_matrix, no_shared_parts]
+def arguments_untouched(repo: Repo) -> RuleRun:
+    from ..alias import argument_mutation_rule
+
+    return argument_mutation_rule(repo, PROP, "C09.ARGUMENTS-UNTOUCHED")
+
+
+arguments_untouched.rule_id = "C09.ARGUMENTS-UNTOUCHED"
+
+def super_forwarding(repo: Repo) -> RuleRun:
+    from ..transforms import super_forwarding_rule
+
+    return super_forwarding_rule(repo, PROP, "C09.SUPER-FORWARDING")
+
+
+super_forwarding.rule_id = "C09.SUPER-FORWARDING"
+
+
+def inplace_then_read(repo: Repo) -> RuleRun:
+    from ..transforms import inplace_then_read_rule
+
+    return inplace_then_read_rule(repo, PROP, "C09.INPLACE-THEN-READ")
+
+
+inplace_then_read.rule_id = "C09.INPLACE-THEN-READ"
+
+
+def invalidate_last(repo: Repo) -> RuleRun:
+    from ..transforms import invalidate_last_rule
+
+    return invalidate_last_rule(repo, PROP, "C09.INVALIDATE-LAST")
+
+
+invalidate_last.rule_id = "C09.INVALIDATE-LAST"
+
+RULES = [purity, no_alias_store, affine_balance, unit_normal, direction_parts, transform_equals_methods, transform_routing, linear_parts, deep_copy, mirror_matrix, no_shared_parts, arguments_untouched, super_forwarding, inplace_then_read, invalidate_last]
